@@ -16,11 +16,15 @@ NextBus(e, d) == LET S == {x \in (d + 1)..(d + 60) : IsBus(e, x)} IN
                  IF S = {} THEN 0 ELSE CHOOSE x \in S : \A z \in S : x <= z
 VARIABLES h, pos, ok
 vars == <<h, pos, ok>>
+\* (the library's own stepping must reproduce the history too: add_bus_days(d, 1) from each publication is the next
+\*  publication, and bus_date_range over the span is the list of publications - a business-day search that gives up
+\*  inside a long closure shows here and nowhere in the day-by-day bitmap)
 Init == /\ h \in 1..Len(Rec) /\ pos = 1
-        /\ ok = IsBus(Rec[h], Rec[h].dates[1])                 \* the first publication is a business day
+        /\ ok = (IsBus(Rec[h], Rec[h].dates[1]) /\ ("range_same" \in DOMAIN Rec[h] => Rec[h].range_same))   \* the first publication is a business day
 Publish == /\ pos < Len(Rec[h].dates)
            /\ pos' = pos + 1
-           /\ ok' = (ok /\ Rec[h].dates[pos + 1] = NextBus(Rec[h], Rec[h].dates[pos]))
+           /\ ok' = (ok /\ Rec[h].dates[pos + 1] = NextBus(Rec[h], Rec[h].dates[pos])
+                         /\ ("nxt" \in DOMAIN Rec[h] => Rec[h].nxt[pos] = Rec[h].dates[pos + 1]))
            /\ UNCHANGED h
 Next == Publish
 Accepted == ok
